@@ -49,6 +49,11 @@ def gen_scene(rng, *, single=False, max_frames=4, max_animals=3, allow_empty_ins
     n_frames = rng.randint(1, max_frames)
     frames = []
     used = set()
+    # labels clicked at whole (or half) pixels, as GUI-made labels often are: crop boxes then sit exactly on the pixel grid
+    grid = rng.choice([None, None, None, 1.0, 0.5])
+
+    def snap(v):
+        return round(v, 2) if grid is None else round(v / grid) * grid
     for f in range(n_frames):
         v = rng.randrange(n_videos)
         fi = rng.randrange(0, 6)
@@ -64,7 +69,7 @@ def gen_scene(rng, *, single=False, max_frames=4, max_animals=3, allow_empty_ins
             for j in range(n_nodes):
                 x = min(max(cx + rng.uniform(-9, 9), 1.0), W - 2.0)
                 y = min(max(cy + rng.uniform(-9, 9), 1.0), H - 2.0)
-                pts.append([round(x, 2), round(y, 2)])
+                pts.append([snap(x), snap(y)])
             if rng.random() < nan_p:
                 order = list(range(n_nodes))
                 rng.shuffle(order)
@@ -86,14 +91,17 @@ def gen_scene(rng, *, single=False, max_frames=4, max_animals=3, allow_empty_ins
         # a labelled frame that holds nothing but an empty instance (it yields no sample) - listed before populated frames
         j = rng.randrange(0, len(frames) - 1)
         frames[j]["instances"] = [{"pts": [[float("nan")] * 2] * n_nodes, "pred": False}]
-    return {"n_nodes": n_nodes, "edges": edges, "sizes": sizes, "frames": frames, "n_video_frames": 12}
+    sc = {"n_nodes": n_nodes, "edges": edges, "sizes": sizes, "frames": frames, "n_video_frames": 12}
+    if n_videos > 1 and rng.random() < 0.3:
+        sc["same_filename"] = True  # videos embedded in one package file share its file name
+    return sc
 
 
 def build_labels(scene, dtype=np.uint8, on_read=None):
     vids = []
     for v, (H, W) in enumerate(scene["sizes"]):
         arr = np.stack([coord_frame(H, W, frame_level(v * 12 + k), dtype) for k in range(scene["n_video_frames"])], axis=0)
-        vids.append(media.make_mem_video(arr, name=f"mem{v}.mp4", on_read=on_read))
+        vids.append(media.make_mem_video(arr, name="project.pkg.slp" if scene.get("same_filename") else f"mem{v}.mp4", on_read=on_read))
     sk = media.make_skeleton(scene["n_nodes"], [tuple(e) for e in scene["edges"]])
     spec = []
     for fr in scene["frames"]:
@@ -162,6 +170,9 @@ def gen_ds_cfg(rng, scene, kind, scale_one=False):
     if kind == "centered":
         ms = max_stride
         cfg["crop_hw"] = [int(math.ceil(cfg["crop_hw"][0] / ms) * ms)] * 2
+        if rng.random() < 0.3:
+            # a user-given crop size: (height, width), not necessarily square nor a multiple of max_stride (the crop is stride-padded)
+            cfg["crop_hw"] = [rng.choice([18, 20, 28, 36, 44]), rng.choice([18, 20, 28, 36, 44])]
     return cfg
 
 
